@@ -265,7 +265,7 @@ def rw_closure_patterns(text):
     return ''.join(out), n
 
 
-def rw_model_adapters(text):
+def rw_model_adapters(text, only=None):
     """R12: the std adapter calls `X.iter().map(` (X a Vec) and `(a..b).map(` are renamed to the model adapters `X.verif_iter_map(` and
     `(a..b).verif_map(` of specs/adapters_model.vrs (std's own `Iterator::map` stays in scope for the std iterator types and vstd specifies
     it only prophetically, so the model methods need their own names)"""
@@ -283,11 +283,18 @@ def rw_model_adapters(text):
             return m.group(0)
         n[0] += 1
         return m.group(1) + '.verif_map('
-    text = re.sub(r'\.iter\(\)\s*\.map\(', f1, text)
-    text = re.sub(r'(\(\s*[A-Za-z0-9_]+\s*\.\.\s*[A-Za-z0-9_]+\s*\))\.map\(', f2, text)
+    if only is None or 'iter_map' in only:
+        text = re.sub(r'\.iter\(\)\s*\.map\(', f1, text)
+    if only is None or 'range_map' in only:
+        text = re.sub(r'(\(\s*[A-Za-z0-9_]+\s*\.\.\s*[A-Za-z0-9_]+\s*\))\.map\(', f2, text)
     # `X.iter().cloned().max()` (X a Vec<u64>), `IT.max()` (IT a model iterator over u64), `X.extend(V)` (X, V: Vec<T>):
     # renamed to the verified models `verif_iter_cloned_max` / `verif_max` / `verif_extend` of specs/iter_model.vrs
-    for rx, rep in ((r'\.iter\(\)\s*\.cloned\(\)\s*\.max\(\)', '.verif_iter_cloned_max()'), (r'\.max\(\)', '.verif_max()'), (r'\.extend\(', '.verif_extend(')):
+    # `X.sort_unstable_by_key(f)` (X a Vec, u64 keys) -> the ASSUMED model `verif_sort_unstable_by_key` (std's documented contract);
+    # `X.into_iter().map(f)` (X a Vec) -> the verified model adapter `X.verif_into_iter_map(f)`
+    for key, rx, rep in (('cloned_max', r'\.iter\(\)\s*\.cloned\(\)\s*\.max\(\)', '.verif_iter_cloned_max()'), ('max', r'\.max\(\)', '.verif_max()'), ('extend', r'\.extend\(', '.verif_extend('),
+                         ('sort', r'\.sort_unstable_by_key\(', '.verif_sort_unstable_by_key('), ('into_iter_map', r'\.into_iter\(\)\s*\.map\(', '.verif_into_iter_map(')):
+        if only is not None and key not in only:
+            continue
         mask = code_mask(text)
 
         def f3(m, rep=rep, mask=mask):
@@ -333,6 +340,8 @@ REWRITES_DOC = {
     'R11': 'closure with one tuple-pattern parameter `|(a, b)| E` -> `|verif_pN| { let (a, b) = verif_pN; E }` (Verus accepts only variables as closure parameters; closure parameters are irrefutable patterns bound exactly like let)',
     'R12': 'std adapter calls `X.iter().map(` (X: Vec) / `(a..b).map(` renamed to the model adapters `X.verif_iter_map(` / `(a..b).verif_map(` (specs/adapters_model.vrs: verified model iterators that yield f(x) for every x in order with exact length; TRUSTED: core::iter::Map over slice::Iter / Range behaves like them)',
     'R13': 'item taken from the arm of a macro_rules! definition, the metavariables replaced by the arguments of one invocation that exists in the file (the text the compiler expands for that invocation); the other invocations differ only in the item type',
+    'R16': '`let X: T = E.collect();` -> `let X: T = FROM_ITER(E);` (Iterator::collect is FromIterator::from_iter(self); the FromIterator impl is the one the annotated type and the item type select)',
+    'R17': '`for PAT in E {` -> `for verif_xK in E { let PAT = verif_xK;` (the loop pattern is bound exactly like let)',
     'R15': 'fully qualified `std::cmp::f` / `core::cmp::f` -> `cmp::f` (the path through the crate\'s own `use std::cmp;`; both name the function the model module cmp declares)',
     'R8': 'struct fields widened to pub inside the unit',
     'R1': 'doc comments / #[inline] / derives dropped',
@@ -584,10 +593,33 @@ def weave_fn(src, container, name, nth, opts, subs, mode, sig_only=False):
             raise Undecided('anchor lost: no closure with a tuple-pattern parameter in %s::%s' % (container, name))
         rewrites['R11'] = k
     if any(kind == 'model_adapters' for kind, arg, lines in subs):
-        text, k = rw_model_adapters(text)
+        # `//@model_adapters [a,b,..]`: all the renamings, or only the named ones (iter_map range_map cloned_max max extend sort into_iter_map)
+        only_ = [arg.strip() for kind, arg, lines in subs if kind == 'model_adapters'][0]
+        text, k = rw_model_adapters(text, set(only_.split(',')) if only_ else None)
         if not k:
             raise Undecided('anchor lost: no std adapter call (`.iter().map(`, `(a..b).map(`, `.max()`, `.extend(`) in %s::%s' % (container, name))
         rewrites['R12'] = k
+    for kind, arg, lines in subs:
+        if kind == 'collect_as':
+            # R16: `let [mut] X: TYPE = E.collect();` -> `let [mut] X: TYPE = FN(E);` with FN the FromIterator impl that the annotated type and
+            # the item type select (`Iterator::collect` IS `FromIterator::from_iter(self)`, std source)
+            fn_ = arg.strip()
+            m_ = re.search(r'(let\s+(?:mut\s+)?\w+\s*:\s*[\w:<>]+\s*=\s*)((?:(?!\blet\s+(?:mut\s+)?\w+\s*:).)*?)\.collect\(\)\s*;', text, re.S)
+            # (a rewrite, not a proof anchor: where the pattern does not occur there is nothing to rewrite, and Verus decides the text as it is)
+            if m_:
+                text = text[:m_.start()] + m_.group(1) + fn_ + '(' + m_.group(2) + ');' + text[m_.end():]
+                rewrites['R16'] = rewrites.get('R16', 0) + 1
+        if kind == 'hoist_for_pattern':
+            # R17: `for PAT in E {` -> `for verif_xK in E { let PAT = verif_xK;` for the K-th `for` loop (the loop pattern is an irrefutable
+            # pattern bound exactly like `let`; Verus needs a variable there when the loop carries a ghost iterator)
+            kth = int(arg.strip() or '1')
+            rx_ = re.compile(r'\bfor\s+(\([^()]*\))\s+in\s+([^{\n]+?)\s*\{')
+            ms_ = [m for m in re.finditer(r'\bfor\s+(.+?)\s+in\s+([^{\n]+?)\s*\{', text) if code_mask(text)[m.start()]]
+            if kth > len(ms_) or not rx_.match(text, ms_[kth - 1].start()):
+                raise Undecided('anchor lost: `for` loop #%d of %s::%s has no tuple pattern' % (kth, container, name))
+            m_ = rx_.match(text, ms_[kth - 1].start())
+            text = text[:m_.start()] + 'for verif_x%d in %s { let %s = verif_x%d;' % (kth, m_.group(2), m_.group(1), kth) + text[m_.end():]
+            rewrites['R17'] = rewrites.get('R17', 0) + 1
     for kind, arg, lines in subs:
         if kind == 'call_rename':
             # R7b: a call of a generic function at a concrete container type is directed to the instantiation of that function at this
@@ -682,7 +714,7 @@ def weave_fn(src, container, name, nth, opts, subs, mode, sig_only=False):
     # collect sub-directives
     for kind, arg, lines in subs:
         body_text = '\n'.join(lines)
-        if kind in ('inst', 'rename_generic', 'desugar_by_ref', 'desugar_for', 'desugar_for_into', 'desugar_closure_patterns', 'model_adapters', 'deref_operand', 'call_rename'):
+        if kind in ('inst', 'rename_generic', 'desugar_by_ref', 'desugar_for', 'desugar_for_into', 'desugar_closure_patterns', 'model_adapters', 'deref_operand', 'call_rename', 'collect_as', 'hoist_for_pattern'):
             continue
         if kind == 'attr':
             if not sig_only:
